@@ -205,6 +205,7 @@ static bool build_case(uint64_t seed, Case &c, std::string &skip) {
     c.head.set("type", c.td->name);
     c.head.set("syntax", syntax_name(c.sy));
     c.head.set("origin", v.origin);
+    c.head.set("realloc", rs.chance(1, 2) ? "move" : "normal");      // always-move realloc: stale pointers into grown buffers show up
     c.head.set("elen", L(c.elen));
     c.head.set("stream", to_hex(c.S));
     return true;
@@ -216,6 +217,7 @@ static void c05_run(uint64_t seed, uint64_t index, bool thorough) {
     if(!build_case(seed, c, skip)) { G.add("c05.skip." + skip); EV.ev("skip %s", skip.c_str()); return; }
     status_head(c.head.head_str());
     status_ops("op deliver rest\n");
+    sim_alloc_always_move(c.head.get("realloc") == "move");
     std::string why;
     if(!prepare_reference(c, why)) {
         if(c.S.size() != c.elen && why.rfind("oneshot_trailing", 0) == 0) {
@@ -235,6 +237,7 @@ static void c05_run(uint64_t seed, uint64_t index, bool thorough) {
     const size_t n = c.S.size();
     unsigned before = (unsigned)g_violation_counts.size();
     uint64_t resumed_before = G.n["c05.fired.chunk_boundary_resumed"];
+    long moves_before = sim_alloc_total_moves();
 
     // (i) every 2-chunk split (exhaustive up to the cap, sampled above)
     size_t cap = thorough ? 4096 : 1024;
@@ -298,6 +301,7 @@ static void c05_run(uint64_t seed, uint64_t index, bool thorough) {
         run_sched(c, {(long)c.elen, -1}, "trailing_after");
         if(c.elen > 1) run_sched(c, {(long)(c.elen - 1), -1}, "trailing_with_last_byte");
     }
+    G.add("c05.fired.realloc_moved", (uint64_t)(sim_alloc_total_moves() - moves_before));
     if(G.n["c05.fired.chunk_boundary_resumed"] > resumed_before) G.seen("c05.nontrivial_cases", hash_str(c.head.head_str()));
     if(G.samples.size() < 4 && index % 7 == 0) G.samples.push_back(c.head.head_str() + "op deliver " + L(n / 2) + "\nop deliver rest\n");
     (void)before;
@@ -311,6 +315,7 @@ static ReplayResult c05_replay(const Plan &p) {
     c.elen = (size_t)p.getl("elen", (long)c.S.size());
     if(c.elen > c.S.size()) c.elen = c.S.size();
     c.head = p; c.head.ops.clear();
+    sim_alloc_always_move(p.get("realloc") == "move");
     std::string why;
     if(!prepare_reference(c, why)) { rr.skipped = true; rr.detail = "precondition: " + why; return rr; }
     std::vector<long> d;
